@@ -41,6 +41,12 @@ func IsLocalRedirect(target string) bool {
 	if len(s) > 1 && isSlash(s[0]) && isSlash(s[1]) {
 		return false
 	}
+	// http.Redirect cleans relative paths: "./\\host" and "a/../\\host" become
+	// "/\\host", which is scheme-relative again. A backslash has no business in
+	// the path of a redirect target.
+	if i := strings.IndexAny(s, "?#\\"); i >= 0 && s[i] == '\\' {
+		return false
+	}
 
 	// scheme = ALPHA *( ALPHA / DIGIT / "+" / "-" / "." ) followed by ":"
 	for i := 0; i < len(s); i++ {
